@@ -5,6 +5,8 @@ import glob, json, os, re
 V = os.path.dirname(os.path.abspath(__file__))
 rows = ["| id | property | change | needs | own check reports | other checks |", "|---|---|---|---|---|---|"]
 for d in sorted(glob.glob(os.path.join(V, "seeded", "*"))):
+    if os.path.basename(d).startswith("refactor-"):
+        continue
     try:
         m = json.load(open(os.path.join(d, "meta.json")))
     except Exception:
